@@ -151,7 +151,8 @@ def gen_adaptive(ctx, binary):
             t = " ".join(["0"] * (w * h))
         # constants: 0, small, larger than typical thresholds (threshold - constant < 0: must not wrap), range end
         cst = r.choice([0, 0, 1, 2, 5, r.range(0, 40), hi if r.chance(1, 12) else 3])
-        mx = r.choice([hi, hi, r.range(1, hi)])
+        mx = r.choice([hi, hi, r.range(1, hi), -1, -1])        # -1: the overload without max_value (int constant; may be negative -> converted)
+        if mx < 0 and r.chance(1, 4): cst = -r.range(1, 3)
         for d in (("reg", "inv") if (th or k <= 3) else (r.choice(["reg", "inv"]),)):
             ops.append("ad %s %s %s %d %d %d %d %d | %s | %s" % (ch, meth, d, w, h, k, cst, mx, plane(px), " ".join(t.split())))
     return ops
